@@ -6,8 +6,11 @@ Proof:  Molli.Props.C01 (round trip of the positional codec for ANY wire order m
         instance facts Molli.Gen.Schema (wire orders of the real serialisers and decoders, obtained by
         sentinel probing through real library files on this run).
 Tie:    random molecules / ensembles are stored in real MoleculeLibrary / ConformerLibrary files (current and
-        legacy encoding) in the scratch directory and read back; (input, raw stored tuple, read-back object)
-        are compared with the model driver's `ser`, `N . ser`, `deser . N . ser`.  Bundled libraries go
+        legacy encoding) in the scratch directory and read back; (input, stored bytes, raw stored tuple, read-back
+        object) are compared with the model driver's `pack . ser`, `N . ser`, `deser . N . ser`.  Sessions come in
+        several shapes: write-all-then-read-all batches, reads interleaved with writes inside one writing()
+        session, reading()/writing() alternation on one long-lived library object, random scripts; bufsize in
+        {-1, 0, 64, 10^6}.  Bundled libraries go
         through the same path (legacy files included) plus a second-generation round trip.
 Oracle: model-free field-by-field comparison of the object before and after (typed-exact for discrete
         fields and attributes, single precision for float arrays, shapes and counts exact).
@@ -407,6 +410,180 @@ def run_batch(ctx, tag: str, kind: str, version: int, recs: list, probe: dict, r
                     "record_tokens_head": replay["record"][:300]})
 
 
+# --------------------------------------------------------------------------------------
+# session shapes: reads and writes interleaved on one long-lived library object
+# --------------------------------------------------------------------------------------
+BUFSIZES = [-1, 0, 64, 10**6]
+
+
+def shape_interleaved(n: int) -> list:
+    """one writing() session: store two, read back the FIRST (not the last record), store more, read everything"""
+    ops = [("put", 0), ("put", 1), ("get", 0), ("put", 2), ("get", 1), ("get", 2), ("get", 0)]
+    for i in range(3, n):
+        ops += [("put", i), ("get", i - 2)]
+    ops += [("keys", -1)] + [("get", i) for i in range(n)]
+    return [("w", ops)]
+
+
+def shape_alternating(n: int) -> list:
+    """reading() / writing() alternate on the same object; every writing session also reads earlier records"""
+    a = max(2, n // 2)
+    return [("w", [("put", i) for i in range(a)]),
+            ("r", [("get", 0), ("keys", -1), ("get", a - 1)]),
+            ("w", [("get", 0)] + [x for i in range(a, n) for x in (("put", i), ("get", i - a))] + [("get", 1)]),
+            ("r", [("keys", -1)] + [("get", i) for i in range(n)])]
+
+
+def shape_random(rng, n: int) -> list:
+    """random sessions; a record is only read once it has been stored"""
+    script, stored, todo = [], [], list(range(n))
+    while todo or not script:
+        mode = "w" if (todo and (not stored or rng.chance(2, 3))) else "r"
+        ops = []
+        for _ in range(rng.range(1, 6)):
+            if mode == "w" and todo and (not stored or rng.chance(1, 2)):
+                i = todo.pop(0)
+                ops.append(("put", i))
+                stored.append(i)
+            elif stored:
+                ops.append(("keys", -1) if rng.chance(1, 8) else ("get", rng.choice(stored)))
+        if ops:
+            script.append((mode, ops))
+    script.append(("r", [("keys", -1)] + [("get", i) for i in range(n)]))
+    return script
+
+
+def script_text(script: list) -> list:
+    return [mode + ":" + ",".join(f"{op}{i if i >= 0 else ''}" for op, i in ops) for mode, ops in script]
+
+
+def script_from_text(lines: list) -> list:
+    out = []
+    for l in lines:
+        mode, rest = l.split(":", 1)
+        ops = []
+        for t in rest.split(","):
+            if t.startswith("put"):
+                ops.append(("put", int(t[3:])))
+            elif t.startswith("get"):
+                ops.append(("get", int(t[3:])))
+            elif t:
+                ops.append(("keys", -1))
+        out.append((mode, ops))
+    return out
+
+
+def run_script_case(ctx, tag: str, kind: str, version: int, recs: list, script: list, bufsize: int, shape: str,
+                    probe: dict, requests: list):
+    """the records go through `script` on ONE library object, then a fresh object reads everything; every value read at
+    any point is compared with what was stored (oracle) and with the model (driver request per observation)"""
+    import msgpack
+    path = ctx.scratch / f"{tag}.{'mlib' if kind == 'mol' else 'clib'}"
+    replay = {"kind": kind, "version": version, "bufsize": bufsize, "shape": shape, "script": script_text(script),
+              "records": [" ".join(cl.record_tokens(r)) for r in recs]}
+    try:
+        objs = [cl.build(r) for r in recs]
+        inps = [cl.snapshot(o) for o in objs]
+    except Exception as e:  # noqa: BLE001
+        ctx.disagree("public constructors refused a record of the domain", replay, f"{type(e).__name__}: {e}", "constructible")
+        return
+    interleaved = any(mode == "w" and any(op == "get" and any(o2 == "put" for o2, _ in ops[k:]) for k, (op, _) in enumerate(ops))
+                      for mode, ops in script)
+    ctx.case(json.dumps(replay, sort_keys=True), nontrivial=interleaved)
+    ctx.count(f"session-shape:{shape}")
+    ctx.count(f"session-bufsize:{bufsize}")
+    ctx.count(f"encoding=v{version}")
+    obs = cl.run_script(kind, path, version, objs, script, bufsize)
+    sch = probe["orders"][(kind, version)]["ser"]
+    stoks = schema_tokens(sch, (probe["atom_dflt"], probe["bond_dflt"]))
+    lines = [" ".join([kind] + stoks + cl.record_tokens(inp)) for inp in inps]
+    stored = set()
+    seen = set()
+    real_violation = ctx.violation
+
+    def violation(kv, what, rp):
+        """one witness per script: after the first damage everything that follows in the same file is a consequence"""
+        if kv == KNOWN_KIND or not any(k != KNOWN_KIND for k in seen):
+            real_violation(kv, what, rp)
+        seen.add(kv)
+
+    def one(where, i, res, wire_t=None, rawb=None):
+        ctx.count("session-read")
+        if isinstance(res, Exception) or res is None:
+            kv = "C01:record-unreadable-in-mixed-session"
+            if kv not in seen:
+                violation(kv, f"{kind} v{version} bufsize={bufsize} shape={shape}: k{i} stored earlier cannot be read {where}: "
+                              f"{type(res).__name__}: {res}", replay)
+            requests.append((lines[i], wire_t, None, replay, rawb))
+            return
+        bs = cl.snapshot(res)
+        for suffix, what in cl.compare(inps[i], bs):
+            kv = "C01:" + suffix
+            if kv not in seen:
+                violation(kv, f"{kind} v{version} bufsize={bufsize} shape={shape}: k{i} read {where}: {what}", replay)
+        requests.append((lines[i], wire_t, cl.canon_nan(cl.record_tokens(bs)), replay, rawb))
+
+    for si, oi, op, i, res in obs:
+        where = f"in session {si} ({script[si][0]}) at step {oi}"
+        if op == "put":
+            if isinstance(res, Exception):
+                ctx.disagree("storing raised in a mixed session", replay, f"{type(res).__name__}: {res}", "stored")
+            else:
+                stored.add(i)
+        elif op == "get":
+            if i in stored:     # a record whose store failed is reported there, not as unreadable
+                one(where, i, res)
+        elif op == "keys":
+            want = sorted(f"k{j}" for j in stored)
+            if isinstance(res, Exception) or res != want:
+                violation("C01:key-set-differs", f"{kind} v{version} bufsize={bufsize} shape={shape}: keys() {where} gave {res!r}, stored {want}", replay)
+        else:
+            violation("C01:session-raised", f"{kind} v{version} bufsize={bufsize} shape={shape}: session {si} raised {type(res).__name__}: {res}", replay)
+    # a fresh object (another process would see the same file) reads everything
+    keys = [f"k{i}" for i in sorted(stored)]
+    try:
+        rawb = cl.raw_bytes(path, keys)
+    except Exception as e:  # noqa: BLE001
+        violation("C01:library-file-damaged", f"{kind} v{version} bufsize={bufsize} shape={shape}: the file cannot be opened after the sessions: {type(e).__name__}: {e}", replay)
+        return
+    backs = cl.load(kind, path, keys)
+    for i in sorted(stored):
+        k = f"k{i}"
+        wire_t = None
+        if k in rawb:
+            try:
+                wire_t = cl.canon_bin_nan(cl.canon_nan(cl.toks(msgpack.loads(rawb[k], use_list=False, strict_map_key=False))))
+            except Exception:  # noqa: BLE001
+                wire_t = ["<undecodable>"]
+        one("by a fresh library object afterwards", i, backs.get(k), wire_t, rawb.get(k))
+
+
+def session_shapes(ctx, probe: dict, requests: list, ev: dict):
+    n = 0
+    for kind, version, recs, script, bufsize, shape in load_corpus_scripts():
+        run_script_case(ctx, f"sesscorpus{n}", kind, version, recs, script, bufsize, "corpus:" + shape, probe, requests)
+        n += 1
+    for kind in ("mol", "ens"):
+        for version in (2, 1):
+            for bufsize in BUFSIZES:
+                for shape, mk in (("interleaved", shape_interleaved), ("alternating", shape_alternating)):
+                    m = ctx.rng.range(3, 6)
+                    recs = [gen_record(ctx.rng, kind, version, True, ev) for _ in range(m)]
+                    run_script_case(ctx, f"sess{n}", kind, version, recs, mk(m), bufsize, shape, probe, requests)
+                    n += 1
+    for _ in range(24 if ctx.quick() else 400):
+        ctx.check_deadline()
+        kind = "mol" if ctx.rng.chance(3, 5) else "ens"
+        version = 2 if ctx.rng.chance(3, 4) else 1
+        m = ctx.rng.range(2, 8)
+        recs = [gen_record(ctx.rng, kind, version, True, ev) for _ in range(m)]
+        run_script_case(ctx, f"sess{n}", kind, version, recs, shape_random(ctx.rng, m), ctx.rng.choice(BUFSIZES), "random", probe, requests)
+        n += 1
+        if len(requests) >= 400:
+            check_driver(ctx, requests)
+            requests.clear()
+
+
 def _nan_free(a: bytes, b: bytes) -> bool:
     """byte comparison is skipped only when the two encodings differ inside a NaN (payload bits are hardware business)"""
     import msgpack
@@ -459,7 +636,22 @@ def load_corpus() -> list:
         for p in sorted(d.glob("*.json")):
             o = json.loads(p.read_text())
             r = o.get("replay", o)
+            if "script" in r:
+                continue
             out.append((r["kind"], int(r["version"]), cl.record_from_tokens(r["kind"], r["record"].split(" "))))
+    return out
+
+
+def load_corpus_scripts() -> list:
+    out = []
+    d = common.VERIF / "corpus" / "C01"
+    if d.is_dir():
+        for p in sorted(d.glob("*.json")):
+            r = json.loads(p.read_text())
+            r = r.get("replay", r)
+            if "script" in r:
+                out.append((r["kind"], int(r["version"]), [cl.record_from_tokens(r["kind"], t.split(" ")) for t in r["records"]],
+                            script_from_text(r["script"]), int(r["bufsize"]), r.get("shape", "corpus")))
     return out
 
 
@@ -512,8 +704,15 @@ def run(ctx):
                 "0..40 (thorough: ..300) atoms, 0..2n bonds, 0..12 conformers, NaN/+-0/inf/subnormal coordinates, nested "
                 "attribute trees (None, bool, ints to 2^64-1, floats, str, bytes, list, tuple, dict with str and non-str "
                 "keys) on molecule, atoms and bonds; current encoding and legacy encoding (restricted to its schema). "
-                "Each record is stored in a real library file and read back. Non-trivial: >= 1 atom and >= 1 field that "
-                "is not the constructor default; distinct by canonical record tokens + encoding.")
+                "Each record is stored in a real library file and read back. Session shapes: (a) batches - one writing() session "
+                "stores up to 50 records, one reading() session on a fresh object reads them; (b) interleaved - inside ONE "
+                "writing() session: store, store, read the first (not the last record), store, read earlier ones, ..., list keys, "
+                "read all; (c) alternating - writing()/reading()/writing()/reading() on one long-lived object, the second writing "
+                "session reads earlier records between its stores; (d) random scripts of sessions and put/get/keys steps; "
+                "(b)-(d) for both classes, both encodings and bufsize in {-1, 0, 64, 10^6}, always followed by a fresh object "
+                "reading every key and by the byte comparison of the stored values. Non-trivial: >= 1 atom and >= 1 field that "
+                "is not the constructor default (records) / a read between two stores of one writing session (scripts); "
+                "distinct by canonical record tokens + encoding (+ script).")
     ctx.assumptions += [
         "msgpack is modelled at the level of its data model (N = loads . dumps); its byte format is not modelled. "
         "N is compared with the real loads(dumps(v)) on every generated attribute tree",
@@ -576,6 +775,9 @@ def run(ctx):
             check_driver(ctx, requests)
             requests = []
 
+    # ---- session shapes: interleaved reads and writes on one long-lived library object ----
+    session_shapes(ctx, probe, requests, ev)
+
     # ---- bundled libraries (legacy files go through the legacy codec) ----
     bundled(ctx, probe, requests)
     check_driver(ctx, requests)
@@ -620,6 +822,28 @@ def replay(ctx, path):
     obj = json.loads(Path(path).read_text())
     print(json.dumps({k: v for k, v in obj.items() if k != "replay"}, indent=1)[:3000])
     r = obj.get("replay") or {}
+    if "script" in r:
+        _ = ctx.scratch
+        kind, version = r["kind"], int(r["version"])
+        recs = [cl.record_from_tokens(kind, t.split(" ")) for t in r["records"]]
+        script = script_from_text(r["script"])
+        objs = [cl.build(x) for x in recs]
+        inps = [cl.snapshot(o) for o in objs]
+        bad = 0
+        for si, oi, op, i, res in cl.run_script(kind, ctx.scratch / "replay.lib", version, objs, script, int(r["bufsize"])):
+            if op == "get" and not isinstance(res, Exception):
+                d = [x for x in cl.compare(inps[i], cl.snapshot(res)) if x[0] != "list-read-back-as-tuple"]
+                res = "exact" if not d else d
+                bad += bool(d)
+            elif isinstance(res, Exception):
+                bad += 1
+                res = f"{type(res).__name__}: {res}"
+            print(f"  session {si} ({script[si][0] if si < len(script) else '?'}) step {oi}: {op} {i if i >= 0 else ''} -> {res}")
+        back = cl.load(kind, ctx.scratch / "replay.lib", [f"k{i}" for i in range(len(recs))])
+        for k, v in back.items():
+            print(f"  fresh object: {k} -> {'ok' if not isinstance(v, Exception) else type(v).__name__ + ': ' + str(v)}")
+            bad += isinstance(v, Exception)
+        return 1 if bad else 0
     if "record" not in r:
         print("no record in the replay file (broken proof obligation / correspondence: see fields above)")
         return 0
